@@ -114,7 +114,7 @@ def grep_escapes(paths=None):
                 line = line.split("--")[0]
                 if ESCAPES.search(line):
                     hits.append(f"{os.path.relpath(p, LEAN)}:{i}: {line.strip()[:120]}")
-                if re.search(r"^\s*partial\s+def", line):
+                if re.search(r"^\s*partial\s+def", line) and os.sep + "Driver" + os.sep not in p:
                     hits.append(f"{os.path.relpath(p, LEAN)}:{i}: partial def")
     return hits
 
